@@ -16,7 +16,7 @@ from . import _idx
 ID = "C06"
 LEVEL = "exploration"
 RUNS = {"quick": 220, "thorough": 8000}
-WALL_CAP = {"quick": 280, "thorough": 3000}
+WALL_CAP = {"quick": 280, "thorough": 1500}
 RULE = (
     "case = seeded world + db create + 3-9 steps mixing user edit batches (word/bullet/kind/priority/"
     "stamp edits, insert/delete/cut-paste notes, header/section edits, add/delete/mv pages), db reindex "
